@@ -7,6 +7,8 @@ package acl
 //	cache-bfs  explicit-state BFS over the decision cache (size 2) per rule list: every probe
 //	           query in every reachable cache state must give the fresh answer
 //	prod-cache directed run with the production cache size (1024), with and without evictions
+//	text-shape the same rules behind/between blank lines, comments and white space of many lengths,
+//	           LF/CRLF, with/without a final line end
 
 import (
 	"encoding/json"
@@ -29,7 +31,8 @@ type c09Replay struct {
 	Rules     []c09Rule  `json:"rules"`
 	Text      string     `json:"acl_text"`
 	CacheSize int        `json:"cache_size"`
-	History   []c09Query `json:"history,omitempty"` // lookups made before, in order
+	History   []c09Query `json:"history,omitempty"`    // lookups made before, in order
+	Shape     *c09Shape  `json:"text_shape,omitempty"` // part text-shape: what surrounds the rules in the text
 	Query     c09Query   `json:"query"`
 	Want      string     `json:"want"`
 	Got       string     `json:"got"`
@@ -80,12 +83,18 @@ var c09Outbounds = map[string]string{"a": "A", "b": "B"}
 
 // c09Compile goes through the text parser and the compiler, as the server does.
 func c09Compile(rules []c09Rule, cacheSize int) (*compiledRuleSetImpl[string], error) {
-	trs, err := ParseTextRules(c09Text(rules))
+	return c09CompileText(c09Text(rules), len(rules), cacheSize)
+}
+
+// c09CompileText: the same from a given rule text; nRules < 0 = do not look at the number of
+// parsed rules (the lookups judge).
+func c09CompileText(text string, nRules, cacheSize int) (*compiledRuleSetImpl[string], error) {
+	trs, err := ParseTextRules(text)
 	if err != nil {
 		return nil, fmt.Errorf("ParseTextRules: %v", err)
 	}
-	if len(trs) != len(rules) {
-		return nil, fmt.Errorf("ParseTextRules returned %d rules for %d lines", len(trs), len(rules))
+	if nRules >= 0 && len(trs) != nRules {
+		return nil, fmt.Errorf("ParseTextRules returned %d rules for %d lines", len(trs), nRules)
 	}
 	rs, err := Compile[string](trs, c09Outbounds, cacheSize, nil)
 	if err != nil {
@@ -113,6 +122,60 @@ func c09WantAns(rules []c09Rule, idx int) c09Ans {
 	return c09Ans{ob, hj}
 }
 
+// c09Shape is what surrounds the rules in the rule text (part text-shape): one filler of Len bytes
+// in front of rule #Pos (Pos = number of rules: after the last rule), the line ends and whether the
+// last line is terminated. Comments (# to the end of the line), blank lines and surrounding white
+// space carry no meaning in the ACL grammar, whatever their length.
+type c09Shape struct {
+	Kind    string `json:"kind"` // blank-line | comment-line | trailing-comment | leading-space
+	Pos     int    `json:"pos"`
+	Len     int    `json:"len"`
+	CRLF    bool   `json:"crlf"`
+	FinalNL bool   `json:"final_newline"`
+}
+
+func (s c09Shape) String() string {
+	return fmt.Sprintf("%s of %d bytes before rule #%d, crlf=%v, final newline=%v", s.Kind, s.Len, s.Pos+1, s.CRLF, s.FinalNL)
+}
+
+var c09ShapeKinds = []string{"blank-line", "comment-line", "trailing-comment", "leading-space"}
+
+// c09ShapeText renders the rules with the filler. blank-line: a line of Len spaces; comment-line:
+// "#" and Len bytes; trailing-comment: " #" and Len bytes appended to the rule line in front
+// (Pos >= 1); leading-space: Len spaces in front of the rule itself (Pos < number of rules).
+func c09ShapeText(rules []c09Rule, s c09Shape) string {
+	eol := "\n"
+	if s.CRLF {
+		eol = "\r\n"
+	}
+	var lines []string
+	for i := 0; i <= len(rules); i++ {
+		if i == s.Pos {
+			switch s.Kind {
+			case "blank-line":
+				lines = append(lines, strings.Repeat(" ", s.Len))
+			case "comment-line":
+				lines = append(lines, "#"+strings.Repeat("x", s.Len))
+			}
+		}
+		if i < len(rules) {
+			l := rules[i].Line()
+			if i == s.Pos && s.Kind == "leading-space" {
+				l = strings.Repeat(" ", s.Len) + l
+			}
+			if i+1 == s.Pos && s.Kind == "trailing-comment" {
+				l += " #" + strings.Repeat("x", s.Len)
+			}
+			lines = append(lines, l)
+		}
+	}
+	t := strings.Join(lines, eol)
+	if s.FinalNL {
+		t += eol
+	}
+	return t
+}
+
 type c09Ctx struct {
 	sh    *evidence.Shard
 	env   *evidence.Env
@@ -129,6 +192,9 @@ func (c *c09Ctx) violate(p *evidence.Part, clause string, rp *c09Replay) bool {
 	hist := fmt.Sprint(rp.History)
 	if len(rp.History) > 6 {
 		hist = fmt.Sprintf("<%d lookups, see replay file>", len(rp.History))
+	}
+	if rp.Shape != nil { // the text is the rules below plus the filler (up to 200 kB, not spelled out)
+		clause += " [rule text: " + rp.Shape.String() + "]"
 	}
 	sig := fmt.Sprintf("%s: %s: rules=[%s] history=%s query=%v want=%s got=%s", p.Name, clause,
 		strings.ReplaceAll(strings.TrimSpace(rp.Text), "\n", "; "), hist, rp.Query, rp.Want, rp.Got)
@@ -675,6 +741,89 @@ func c09Enumerate(sh *evidence.Shard) {
 		}
 	}
 
+	// Part 8: the shape of the rule text around the rules. The same three rules, each deciding
+	// some lookup, with one filler (blank line, comment line, comment behind a rule, white space in
+	// front of a rule) of every length below at every place, LF and CRLF line ends, with and without
+	// a final line end: the rules behind the filler must still be there, in file order. (Added
+	// after the independently seeded change C09-9: the parser walked the text with a bufio.Scanner
+	// and ignored its error, so every rule behind a line of 64 KiB or more was dropped silently.)
+	{
+		p8 := sh.Part("text-shape", "enum")
+		lens := []int{0, 1, 100, 4095, 4096, 65534, 65535, 65536, 70000, 200000}
+		if th {
+			for n := 65520; n <= 65544; n++ { // every length around the 64 KiB mark
+				if n < 65534 || n > 65536 {
+					lens = append(lens, n)
+				}
+			}
+			lens = append(lens, 1<<20, 1<<22)
+		}
+		rules := []c09Rule{{Ob: "A", Addr: "a.com"}, {Ob: "B", Addr: "suffix:b.com", Hijack: "9.9.9.9"}, {Ob: "A", Addr: "all", PP: "udp/53"}}
+		queries := []c09Query{
+			{Name: "a.com", Proto: c09ProtoTCP, Port: 80}, {Name: "a.com", Proto: c09ProtoUDP, Port: 53}, // line 1 (also in front of line 3)
+			{Name: "x.b.com", Proto: c09ProtoTCP, Port: 80}, {Name: "b.com", Proto: c09ProtoUDP, Port: 53}, // line 2 (also in front of line 3)
+			{Name: "c.com", Proto: c09ProtoUDP, Port: 53}, // line 3
+			{Name: "c.com", Proto: c09ProtoTCP, Port: 80}, // default
+		}
+		p8.Alphabet = map[string]any{"text_shape_filler": c09ShapeKinds, "filler_bytes": lens, "filler_position": "in front of rule 1, 2, 3 and after the last rule",
+			"line_end": []string{"LF", "CRLF"}, "final_line_end": []string{"present", "absent"}, "rules": strings.ReplaceAll(strings.TrimSpace(c09Text(rules)), "\n", "; "), "queries": fmt.Sprint(queries)}
+		p8.Bounds = map[string]any{"fillers_per_text": 1, "lookups": "every query, each with an empty decision cache"}
+		// (no deadline test in this part, like parts 6 and 7: a shard's share is about two dozen texts, milliseconds)
+		ref, rerr := c09RefCompileAll(rules)
+		if rerr != nil {
+			panic(rerr)
+		}
+		var cidx int64
+	shapes:
+		for _, kind := range c09ShapeKinds {
+			for pos := 0; pos <= len(rules); pos++ {
+				if (kind == "trailing-comment" && pos == 0) || (kind == "leading-space" && pos == len(rules)) {
+					continue
+				}
+				for _, n := range lens {
+					for _, crlf := range []bool{false, true} {
+						for _, fin := range []bool{true, false} {
+							cidx++
+							if !env.Mine(cidx) {
+								continue
+							}
+							shp := c09Shape{Kind: kind, Pos: pos, Len: n, CRLF: crlf, FinalNL: fin}
+							bad := false
+							impl, err := c09CompileText(c09ShapeText(rules, shp), -1, 2)
+							if err != nil {
+								bad = true
+								if !c.violate(p8, "grammar-accepted rule text rejected: "+err.Error(), &c09Replay{Kind: "fresh", Rules: rules, Shape: &shp, CacheSize: 2, Query: queries[0], Want: "compiles", Got: "error"}) {
+									break shapes
+								}
+							}
+							for _, q := range queries {
+								if bad {
+									break
+								}
+								impl.Cache.Purge()
+								got := c09Ask(impl, q)
+								want := c09WantAns(rules, c09RefEval(ref, q))
+								p8.Evaluations++
+								if got != want {
+									bad = true
+									if !c.violate(p8, "fresh lookup differs from the first-match reference", &c09Replay{Kind: "fresh", Rules: rules, Shape: &shp, CacheSize: 2, Query: q, Want: want.String(), Got: got.String()}) {
+										break shapes
+									}
+								}
+							}
+							nb := 0 // length class of the filler
+							for m := n; m > 0; m >>= 1 {
+								nb++
+							}
+							p8.Class(kind, pos, nb, crlf, fin, bad)
+							p8.Count("rule_texts", 1)
+						}
+					}
+				}
+			}
+		}
+	}
+
 	// Part 4 (thorough): fresh lookups, lists of length 3
 	if th {
 		p4 := sh.Part("fresh-len3", "enum")
@@ -694,7 +843,7 @@ func c09Enumerate(sh *evidence.Shard) {
 
 func c09ReplayOne(part string, raw json.RawMessage) (bool, bool, string) {
 	switch part {
-	case "fresh-len012", "fresh-len3", "cache-bfs", "prod-cache", "wildcard-grid", "name-characters", "port-boundaries":
+	case "fresh-len012", "fresh-len3", "cache-bfs", "prod-cache", "wildcard-grid", "name-characters", "port-boundaries", "text-shape":
 	default:
 		return false, false, ""
 	}
@@ -707,6 +856,9 @@ func c09ReplayOne(part string, raw json.RawMessage) (bool, bool, string) {
 		return true, false, "reference rejects the rule list: " + err.Error()
 	}
 	impl, err := c09Compile(rp.Rules, rp.CacheSize)
+	if rp.Shape != nil {
+		impl, err = c09CompileText(c09ShapeText(rp.Rules, *rp.Shape), -1, rp.CacheSize)
+	}
 	if err != nil {
 		return true, true, err.Error()
 	}
